@@ -337,7 +337,7 @@ Spline<K, G> Spline<K, G>::crop(double ta, double tb, bool localize) const
 
   // crop first segment
   {
-    const double tta = 0;
+    const double tta = i0 == 0 ? 0 : m_end_t[i0 - 1];
     const double ttb = m_end_t[i0];
     const double sa  = ta;
     const double sb  = ttb;
@@ -348,8 +348,8 @@ Spline<K, G> Spline<K, G>::crop(double ta, double tb, bool localize) const
 
   // crop last segment
   {
-    const double tta = Nseg == 1 ? ta : m_end_t[Nseg - 2];
-    const double ttb = m_end_t[Nseg - 1];
+    const double tta = Nseg == 1 ? ta : m_end_t[i0 + Nseg - 2];
+    const double ttb = m_end_t[i0 + Nseg - 1];
     const double sa  = tta;
     const double sb  = tb;
 
